@@ -313,6 +313,70 @@ func c16Body(c *ev.Ctx) {
 	}
 	evals += int64(rt)
 	c.Set("roundtrip_parameter_sets", int64(rt))
+	// ---- A2: decoding into a value that already holds another parameter set (non-initial state of the
+	// destination), for every ordered pair of shapes: the value must afterwards equal the second set exactly
+	{
+		mk := func(shape []int, seed int) (prover.InsertionParameters, prover.DeletionParameters) {
+			k := seed
+			val := func() big.Int { k++; return *new(big.Int).Set(V[k%len(V)]) }
+			ins := prover.InsertionParameters{InputHash: val(), StartIndex: IX[seed%4], PreRoot: val(), PostRoot: val(), IdComms: []big.Int{}, MerkleProofs: [][]big.Int{}}
+			del := prover.DeletionParameters{InputHash: ins.InputHash, PreRoot: ins.PreRoot, PostRoot: ins.PostRoot, IdComms: []big.Int{}, MerkleProofs: [][]big.Int{}, DeletionIndices: []uint32{}}
+			for i, l := range shape {
+				cm := val()
+				ins.IdComms = append(ins.IdComms, cm)
+				del.IdComms = append(del.IdComms, cm)
+				del.DeletionIndices = append(del.DeletionIndices, IX[(seed+i+1)%4])
+				pr := []big.Int{}
+				for j := 0; j < l; j++ {
+					pr = append(pr, val())
+				}
+				ins.MerkleProofs = append(ins.MerkleProofs, pr)
+				del.MerkleProofs = append(del.MerkleProofs, append([]big.Int{}, pr...))
+			}
+			return ins, del
+		}
+		canon := func(v any) string { // value-for-value rendering independent of the repository's encoder (nil == empty)
+			switch p := v.(type) {
+			case *prover.InsertionParameters:
+				return fmt.Sprintf("%s %d %s %s %v %v", p.InputHash.String(), p.StartIndex, p.PreRoot.String(), p.PostRoot.String(), bigList(p.IdComms), bigMatrix(p.MerkleProofs))
+			case *prover.DeletionParameters:
+				return fmt.Sprintf("%s %v %s %s %v %v", p.InputHash.String(), append([]uint32{}, p.DeletionIndices...), p.PreRoot.String(), p.PostRoot.String(), bigList(p.IdComms), bigMatrix(p.MerkleProofs))
+			}
+			return "?"
+		}
+		reuse := 0
+		for ai, sa := range shapes {
+			for bi, sb := range shapes {
+				insA, delA := mk(sa, ai)
+				insB, delB := mk(sb, bi+5)
+				jA, e1 := json.Marshal(&insA)
+				jB, e2 := json.Marshal(&insB)
+				if e1 == nil && e2 == nil {
+					var v prover.InsertionParameters
+					if err := safeUnmarshal(jA, &v); err == nil {
+						err = safeUnmarshal(jB, &v)
+						if err != nil || canon(&v) != canon(&insB) {
+							c.Violation("reuse|insertion", fmt.Sprintf("decoding insertion parameters of shape %v into a value that held shape %v: err=%v, value is %s, document says %s", sb, sa, err, canon(&v), canon(&insB)), c16Case{Kind: "rt-ins", Doc: string(jB)})
+						}
+					}
+				}
+				jA, e1 = json.Marshal(&delA)
+				jB, e2 = json.Marshal(&delB)
+				if e1 == nil && e2 == nil {
+					var v prover.DeletionParameters
+					if err := safeUnmarshal(jA, &v); err == nil {
+						err = safeUnmarshal(jB, &v)
+						if err != nil || canon(&v) != canon(&delB) {
+							c.Violation("reuse|deletion", fmt.Sprintf("decoding deletion parameters of shape %v into a value that held shape %v: err=%v, value is %s, document says %s", sb, sa, err, canon(&v), canon(&delB)), c16Case{Kind: "rt-del", Doc: string(jB)})
+						}
+					}
+				}
+				reuse += 2
+			}
+		}
+		evals += int64(reuse)
+		c.Set("decode_into_used_value_pairs", int64(reuse))
+	}
 	// ---- B: acceptance -----------------------------------------------------------
 	alpha := "019afgxXz_-+.e "
 	var strsAll []string
@@ -382,4 +446,20 @@ func c16Body(c *ev.Ctx) {
 	c.Set("distinct_nontrivial", int64(len(distinct))+nNum+nNot)
 	c.Set("rule", "A: every ragged shape with batch, depth in {0,1,2}; every field takes every value of V={0,1,255,256,2^248-1,2^248,r-1,r,r+1,2^256-1,2^256,2^300} while the others cycle through V (pairwise), nil and empty slices; decode(encode(p)) must equal p. B: every string of length <=4 over the 15-letter alphabet '019afgxXz_-+.e ' (+ long/odd strings) in each numeric string field of both modes, and JSON scalars in the index field; three-valued oracle (number / not a number / unspecified notations such as signs, underscores, 0X, leading zeros are not judged)")
 	c.Assume("decimal notation and 0x-lowercase-hex are 'numbers'; other Go base-prefix notations are left unjudged")
+}
+
+func bigList(v []big.Int) []string {
+	out := []string{}
+	for i := range v {
+		out = append(out, v[i].String())
+	}
+	return out
+}
+
+func bigMatrix(m [][]big.Int) [][]string {
+	out := [][]string{}
+	for i := range m {
+		out = append(out, bigList(m[i]))
+	}
+	return out
 }
